@@ -47,3 +47,24 @@ def upperMatrix (n : Nat) (lo : Nat → Nat) (row : Nat → List Bool) : List (L
   (List.range n).map (fun a => (List.range n).map (fun b => marked lo row a b))
 
 end Pandora.PyScanGraph
+
+/-! ### Boolean row programs (second nest of `create_connected_graph`): rows are `List Bool`, matrices lists of rows -/
+namespace Pandora.PyScanGraph
+
+/-- `M[i, :].copy()` -/
+def rowOf (m : List (List Bool)) (i : Nat) : List Bool := m.getD i []
+/-- `M[mask, :].copy()`: the rows of `M` whose mask entry is set -/
+def selectRows (m : List (List Bool)) (mask : List Bool) : List (List Bool) :=
+  (m.zip mask).filterMap (fun p => if p.2 then some p.1 else none)
+/-- `P[:, j].any()` -/
+def anyCol (p : List (List Bool)) (j : Nat) : Bool := p.any (fun r => r.getD j false)
+/-- `for j in range(n): v[j] = f j` where `f j` reads `v` at `j` only (checked by the translator) and `len(v) = n` -/
+def tabulateB (n : Nat) (f : Nat → Bool) : List Bool := (List.range n).map f
+/-- `for _ in range(a, b): v = body v` -/
+def iter {α : Type} (body : α → α) : Nat → α → α
+  | 0, v => v
+  | k + 1, v => iter body k (body v)
+/-- `np.eye(n, dtype=np.bool_)` -/
+def eye (n : Nat) : List (List Bool) := (List.range n).map (fun i => (List.range n).map (fun k => decide (i = k)))
+
+end Pandora.PyScanGraph
